@@ -310,6 +310,10 @@ func (vkState) IPv6Forwarding(iface string) (bool, error) {
 	if !ok {
 		return false, fmt.Errorf("verif: %s: %w", iface, os.ErrNotExist)
 	}
+	// the harness changes the forwarding state of a running process by writing <log>.fwd.<interface>
+	if b, err := os.ReadFile(vk.w.Log + ".fwd." + iface); err == nil && len(b) > 0 {
+		return b[0] == '1', nil
+	}
 	return i.Forwarding, nil
 }
 
